@@ -313,11 +313,73 @@ def pure(dotted, tag="object"):
 
 # ----------------------------------------------------------------------------- dispatch
 
+class TrackedKwargs(dict):
+    """keyword arguments of a library call: the assumed contract must LOOK at every keyword it is given -- a keyword the
+    model silently ignores could change the library's behaviour (soundness guard, see `_guard`)"""
+
+    def __init__(self, d):
+        super().__init__(d)
+        self.seen = set()
+
+    def __getitem__(self, k):
+        self.seen.add(k)
+        return super().__getitem__(k)
+
+    def get(self, k, default=None):
+        self.seen.add(k)
+        return super().get(k, default)
+
+    def __contains__(self, k):
+        self.seen.add(k)
+        return super().__contains__(k)
+
+    def pop(self, k, *a):
+        self.seen.add(k)
+        return super().pop(k, *a)
+
+    def _all(self):
+        self.seen.update(super().keys())
+
+    def items(self):
+        self._all()
+        return super().items()
+
+    def keys(self):
+        self._all()
+        return super().keys()
+
+    def values(self):
+        self._all()
+        return super().values()
+
+    def __iter__(self):
+        self._all()
+        return super().__iter__()
+
+    def copy(self):
+        self._all()
+        return dict(self)
+
+
+# keywords that never change a result in the modelled calls
+HARMLESS_KW = {"copy", "progress", "disable", "desc", "stacklevel", "category"}
+
+
+def _guard(interp, what, h, call, kwargs, node):
+    tk = TrackedKwargs(kwargs or {})
+    r = call(tk)
+    ignored = [k for k in tk if k not in tk.seen and k not in HARMLESS_KW]
+    if ignored and not interp.spec_mode:
+        raise Unsupported(f"{interp.current_qualname}:{getattr(node, 'lineno', '?')}: the assumed contract of {what} does not model "
+                          f"keyword(s) {sorted(ignored)}")
+    return r
+
+
 def call_extern(interp, dotted, args, kwargs, node):
     h = EXTERNS.get(dotted)
     if h is None:
         raise Unsupported(f"{interp.current_qualname}:{getattr(node, 'lineno', '?')}: no assumed contract for library function {dotted}")
-    return h(interp, args, kwargs, node)
+    return _guard(interp, dotted, h, lambda kw: h(interp, args, kw, node), kwargs, node)
 
 
 def value_class(v):
@@ -342,7 +404,7 @@ def call_method(interp, sv, name, args, kwargs, node):
             if not py_has:
                 raise_py(interp, "AttributeError", f"'{cls}' object has no attribute '{name}'", node)
         raise Unsupported(f"{interp.current_qualname}:{getattr(node, 'lineno', '?')}: no assumed contract for method {cls}.{name}")
-    return h(interp, sv, args, kwargs, node)
+    return _guard(interp, f"{cls}.{name}", h, lambda kw: h(interp, sv, args, kw, node), kwargs, node)
 
 
 def call_type(interp, tv, args, kwargs, node):
@@ -351,7 +413,7 @@ def call_type(interp, tv, args, kwargs, node):
         return BUILTINS[n](interp, args, kwargs, node)
     h = EXTERNS.get("type:" + n)
     if h is not None:
-        return h(interp, args, kwargs, node)
+        return _guard(interp, n, h, lambda kw: h(interp, args, kw, node), kwargs, node)
     from .symex import EXC_PARENT
     if n in EXC_PARENT:
         return VObj("exception:" + n)
@@ -469,10 +531,14 @@ def sqrt(interp, a, node=None):
 def pow(interp, a, b, node=None):
     x, y = to_real(a), to_real(b)
     f = z3.Function("pow", z3.RealSort(), z3.RealSort(), z3.RealSort())
-    interp.ctx.assumed.add("float-as-real: x**y is an uninterpreted real power with: 0<x<=1 and y<=0 => x**y>=1; x>0 => x**y>0")
+    ctx = interp.ctx
+    if ("ax", "pow") not in ctx.axioms_added:
+        ctx.axioms_added.add(("ax", "pow"))
+        u, w = z3.Real("u!pow"), z3.Real("w!pow")
+        ctx.assume_global(z3.ForAll([u, w], z3.And(z3.Implies(z3.And(u > 0, u <= 1, w <= 0), f(u, w) >= 1), z3.Implies(u > 0, f(u, w) > 0)),
+                                    patterns=[f(u, w)]),
+                          "float-as-real: x**y is an uninterpreted real power with: 0<x<=1 and y<=0 => x**y>=1; x>0 => x**y>0")
     r = f(x, y)
-    interp.ctx.assume(z3.Implies(z3.And(x > 0, x <= 1, y <= 0), r >= 1))
-    interp.ctx.assume(z3.Implies(x > 0, r > 0))
     return VReal(r, getattr(a, "np", False) or getattr(b, "np", False))
 
 
